@@ -149,7 +149,10 @@ func (g *Global) LLString() string {
 		fmt.Fprintf(buf, ", partition %s", quote(g.Partition))
 	}
 	if g.Comdat != nil {
-		if g.Comdat.Name == g.Name() {
+		// Note: the shorthand stands for the comdat named as the global; compare
+		// with the name itself (Name() returns a display form and the ID of
+		// unnamed globals).
+		if !g.IsUnnamed() && g.Comdat.Name == g.GlobalName {
 			buf.WriteString(", comdat")
 		} else {
 			fmt.Fprintf(buf, ", %s", g.Comdat)
